@@ -44,6 +44,10 @@ claimed = {
    text="Bounded exhaustive model checking: all strings of length 0..3 (thorough: 0..4) over a 10-unit alphabet mixing ASCII, 2-, 3- and 4-byte characters, whitespace and separator characters, crossed with every start/length/width in -8..8, pad strings of 0..3 units and separators of 0..2 units, for $length, $substring (2/3 arguments), $pad (2/3), $substringBefore/After, $trim, $uppercase/$lowercase, $contains, $split (2/3), $join (1/2), $replace (3/4), base64 and URL codecs, each in direct and context-defaulting form, compared with []rune reference definitions; the inverse laws of the statement are evaluated as JSONata equalities on every enumerated string.",
    note="Trusted: the []rune reference functions in mc/props/c16.go, unicode.ToUpper/ToLower, encoding/base64 and net/url as independent oracles. Fractional parameters are checked for totality only (statement silent on the cast). Characters outside the alphabet are not covered.",
    technique="explicit enumeration of all bounded strings x parameters (stateless DFS) vs code-point reference definitions and in-language laws", design="§5 C16", engine=E1),
+ "C17": dict(
+   text="Bounded exhaustive model checking: every pattern of 1-2 atoms (thorough: 3) from a 17-atom grammar (literals, classes, capturing/nested/optional groups, quantifiers incl. lazy, anchors, escaped slash, empty group) with and without a top-level alternation x 5 flag sets x all subjects of length <=2 (thorough: <=4) over {a,b,A,/,newline} plus 5 longer subjects x $match, $contains, $split, $replace (default template / replacement function), literal-as-function and the full next() chain x limits {absent,0,1,2,4,-1}; all templates of <=3 (thorough: 4) units over {x,$0,$1,$2,$12,$$,lone $,$a,$3} on 8 patterns with 0-3 groups; invalid/empty patterns must fail to compile. Oracle: Go's regexp called directly by the harness (FindAllStringSubmatchIndex) and a reference template expander written from the statement.",
+   note="Trusted: Go regexp as the engine the statement refers to (what is verified is literal scanning, flag translation, match-object plumbing, byte offsets on an ASCII subject alphabet, limits, split/replace reconstruction, template expansion). Subjects longer than the bound and non-ASCII offsets are not covered.",
+   technique="explicit enumeration of patterns x flags x subjects x functions (stateless DFS) vs direct calls of the regexp engine", design="§5 C17", engine=E1),
 }
 pending_reason = "check not built yet in this session (planned, see DESIGN.md §5)"
 
